@@ -642,6 +642,8 @@ class PhaseField(_Simu):
         if self.phaseFieldModel.solver == self.phaseFieldModel.SolverType.History:
             # update old history field for next resolution
             self.__old_psiP_e_pg = self.__psiP_e_pg
+            # the history field is part of the state of the iteration
+            iter["psiP_history"] = np.array(self.__old_psiP_e_pg, copy=True)
 
         iter["displacement"] = self.displacement
         iter["damage"] = self.damage
@@ -663,6 +665,12 @@ class PhaseField(_Simu):
         # damage and displacement field will change thats why we need to update the assembled matrices
         self.__updatedDamage = False
         self.__updatedDisplacement = False
+
+        if "psiP_history" in results:
+            # brings back the history field the iteration was saved with
+            self.__old_psiP_e_pg = FeArray.asfearray(
+                np.array(results["psiP_history"], copy=True)
+            )
 
         if (
             resetAll
